@@ -1,17 +1,30 @@
 import TF.Model.RustStdConv
 import TF.Model.Codec
-import Mathlib.Tactic.NormNum
-/-! arithmetic core of the regenerated `u64` / `u128` decoders (field elements already abstracted); kept in a file with
-minimal imports -/
+/-! arithmetic core of the regenerated `u64` / `u128` codecs (field elements already abstracted).  Core Lean only.
+Big constants are hidden behind `def`s (`H32 = 2^32`, `W64 = 2^64`, `H96 = 2^96`, `W128 = 2^128`) wherever a goal goes to
+`omega`; the 128-bit sum is split into two 64-bit halves. -/
 namespace TF.GenBridge.CodecArith
 open TF.Codec
 
-theorem sh0 : 2 ^ (((0 * 32) % 18446744073709551616) % 64) = 1 := by norm_num
-theorem sh1 : 2 ^ (((1 * 32) % 18446744073709551616) % 64) = 4294967296 := by norm_num
-theorem lh0 : 2 ^ (((0 * 32) % 18446744073709551616) % 128) = 1 := by norm_num
-theorem lh1 : 2 ^ (((1 * 32) % 18446744073709551616) % 128) = 4294967296 := by norm_num
-theorem lh2 : 2 ^ (((2 * 32) % 18446744073709551616) % 128) = 18446744073709551616 := by norm_num
-theorem lh3 : 2 ^ (((3 * 32) % 18446744073709551616) % 128) = 79228162514264337593543950336 := by norm_num
+def H32 : Nat := 4294967296
+def W64 : Nat := 18446744073709551616
+def H96 : Nat := 79228162514264337593543950336
+def W128 : Nat := 340282366920938463463374607431768211456
+
+theorem H32_eq : H32 = 2 ^ 32 := by decide
+theorem W64_eq : W64 = H32 * H32 := by decide
+theorem H96_eq : H96 = W64 * H32 := by decide
+theorem W128_eq : W128 = W64 * W64 := by decide
+
+/-! ### the shift amounts `(i * 32) as usize % BITS` of the two loops, evaluated -/
+theorem sh0 : 2 ^ (((0 * 32) % 18446744073709551616) % 64) = 1 := by decide
+theorem sh1 : 2 ^ (((1 * 32) % 18446744073709551616) % 64) = 4294967296 := by decide
+theorem lh0 : 2 ^ (((0 * 32) % 18446744073709551616) % 128) = 1 := by decide
+theorem lh1 : 2 ^ (((1 * 32) % 18446744073709551616) % 128) = 4294967296 := by decide
+theorem lh2 : 2 ^ (((2 * 32) % 18446744073709551616) % 128) = 18446744073709551616 := by decide
+theorem lh3 : 2 ^ (((3 * 32) % 18446744073709551616) % 128) = 79228162514264337593543950336 := by decide
+
+/-! ### decoding: the wrapping `sum()` of the shifted limbs is the little-endian value -/
 
 theorem u64_sum (x y : Nat) (hx : x ≤ 4294967295) (hy : y ≤ 4294967295) :
     TF.RustStd.sum_w 18446744073709551616
@@ -20,5 +33,104 @@ theorem u64_sum (x y : Nat) (hx : x ≤ 4294967295) (hy : y ≤ 4294967295) :
   rw [sh0, sh1]
   simp only [TF.RustStd.sum_w, limbsValue]
   omega
+
+/-- `sum_ok` from the bound on the left fold; generic in the bound, so no `decide (_ < 2^64)` is ever reduced (the kernel
+    would run `Nat.ble` on the literal) -/
+theorem sum_ok_intro (M : Nat) (l : List Nat) (h : l.foldl (· + ·) 0 < M) : TF.RustStd.sum_ok M l = true := by
+  unfold TF.RustStd.sum_ok; exact decide_eq_true h
+
+/-- … and no partial sum overflows `u64` -/
+theorem u64_sum_ok (x y : Nat) (hx : x ≤ 4294967295) (hy : y ≤ 4294967295) :
+    TF.RustStd.sum_ok 18446744073709551616
+      [x * 2 ^ (((0 * 32) % 18446744073709551616) % 64) % 18446744073709551616,
+       y * 2 ^ (((1 * 32) % 18446744073709551616) % 64) % 18446744073709551616] = true := by
+  rw [sh0, sh1]
+  apply sum_ok_intro
+  rw [List.foldl_cons, List.foldl_cons, List.foldl_nil]
+  omega
+
+theorem limbs2 (x y : Nat) : limbsValue [x, y] = x + H32 * y := by
+  simp only [limbsValue, H32]; omega
+
+theorem limbs4 (x y z w : Nat) : limbsValue [x, y, z, w] = (x + H32 * y) + W64 * (z + H32 * w) := by
+  have e : limbsValue [x, y, z, w] = x + H32 * (y + H32 * (z + H32 * w)) := by
+    simp only [limbsValue, H32]; omega
+  rw [e, W64_eq, Nat.mul_add H32 y, ← Nat.mul_assoc H32 H32 (z + H32 * w), Nat.add_assoc]
+
+/-- a 64-bit half `lo + 2^32 * hi` of two limbs is below `2^64` -/
+theorem half_lt (x y : Nat) (hx : x < H32) (hy : y < H32) : x + H32 * y < W64 := by
+  have h : H32 * (y + 1) ≤ H32 * H32 := Nat.mul_le_mul_left H32 hy
+  rw [Nat.mul_add, Nat.mul_one] at h
+  rw [W64_eq]; omega
+
+/-- two 64-bit halves make a value below `2^128` -/
+theorem halves_lt (lo hi : Nat) (hlo : lo < W64) (hhi : hi < W64) : lo + W64 * hi < W128 := by
+  have h : W64 * (hi + 1) ≤ W64 * W64 := Nat.mul_le_mul_left W64 hhi
+  rw [Nat.mul_add, Nat.mul_one] at h
+  rw [W128_eq]; omega
+
+theorem u128_terms (x y z w : Nat) (hx : x < H32) (hy : y < H32) (hz : z < H32) (hw : w < H32) :
+    x * 1 % W128 = x ∧ y * H32 % W128 = H32 * y ∧ z * W64 % W128 = W64 * z ∧ w * H96 % W128 = W64 * (H32 * w) ∧
+    x + (H32 * y + (W64 * z + W64 * (H32 * w))) = limbsValue [x, y, z, w] ∧ limbsValue [x, y, z, w] < W128 := by
+  have hl := half_lt x y hx hy
+  have hh := half_lt z w hz hw
+  have hv := halves_lt _ _ hl hh
+  have e4 := limbs4 x y z w
+  have ed : W64 * (z + H32 * w) = W64 * z + W64 * (H32 * w) := Nat.mul_add ..
+  have e96 : w * H96 = W64 * (H32 * w) := by rw [H96_eq, Nat.mul_comm w, Nat.mul_assoc]
+  have h0 : (0 : Nat) < W64 := by decide
+  have pz : 0 ≤ W64 * z := Nat.zero_le _
+  have py : 0 ≤ H32 * y := Nat.zero_le _
+  have pw : 0 ≤ W64 * (H32 * w) := Nat.zero_le _
+  refine ⟨?_, ?_, ?_, ?_, ?_, ?_⟩
+  · rw [Nat.mul_one]; exact Nat.mod_eq_of_lt (by omega)
+  · rw [Nat.mul_comm y]; exact Nat.mod_eq_of_lt (by omega)
+  · rw [Nat.mul_comm z]; exact Nat.mod_eq_of_lt (by omega)
+  · rw [e96]; exact Nat.mod_eq_of_lt (by omega)
+  · omega
+  · omega
+
+theorem u128_sum (x y z w : Nat) (hx : x ≤ 4294967295) (hy : y ≤ 4294967295) (hz : z ≤ 4294967295)
+    (hw : w ≤ 4294967295) :
+    TF.RustStd.sum_w 340282366920938463463374607431768211456
+      [x * 2 ^ (((0 * 32) % 18446744073709551616) % 128) % 340282366920938463463374607431768211456,
+       y * 2 ^ (((1 * 32) % 18446744073709551616) % 128) % 340282366920938463463374607431768211456,
+       z * 2 ^ (((2 * 32) % 18446744073709551616) % 128) % 340282366920938463463374607431768211456,
+       w * 2 ^ (((3 * 32) % 18446744073709551616) % 128) % 340282366920938463463374607431768211456]
+      = limbsValue [x, y, z, w] ∧
+    TF.RustStd.sum_ok 340282366920938463463374607431768211456
+      [x * 2 ^ (((0 * 32) % 18446744073709551616) % 128) % 340282366920938463463374607431768211456,
+       y * 2 ^ (((1 * 32) % 18446744073709551616) % 128) % 340282366920938463463374607431768211456,
+       z * 2 ^ (((2 * 32) % 18446744073709551616) % 128) % 340282366920938463463374607431768211456,
+       w * 2 ^ (((3 * 32) % 18446744073709551616) % 128) % 340282366920938463463374607431768211456] = true := by
+  rw [lh0, lh1, lh2, lh3]
+  obtain ⟨t0, t1, t2, t3, es, hb⟩ := u128_terms x y z w (by unfold H32; omega) (by unfold H32; omega)
+    (by unfold H32; omega) (by unfold H32; omega)
+  change TF.RustStd.sum_w W128 [x * 1 % W128, y * H32 % W128, z * W64 % W128, w * H96 % W128] = _ ∧
+    TF.RustStd.sum_ok W128 [x * 1 % W128, y * H32 % W128, z * W64 % W128, w * H96 % W128] = true
+  rw [t0, t1, t2, t3]
+  have m3 : (W64 * (H32 * w) + 0) % W128 = W64 * (H32 * w) := by rw [Nat.add_zero]; exact Nat.mod_eq_of_lt (by omega)
+  have m2 : (W64 * z + W64 * (H32 * w)) % W128 = W64 * z + W64 * (H32 * w) := Nat.mod_eq_of_lt (by omega)
+  have m1 : (H32 * y + (W64 * z + W64 * (H32 * w))) % W128 = H32 * y + (W64 * z + W64 * (H32 * w)) :=
+    Nat.mod_eq_of_lt (by omega)
+  have m0 : (x + (H32 * y + (W64 * z + W64 * (H32 * w)))) % W128 = x + (H32 * y + (W64 * z + W64 * (H32 * w))) :=
+    Nat.mod_eq_of_lt (by omega)
+  constructor
+  · simp only [TF.RustStd.sum_w]
+    rw [m3, m2, m1, m0]
+    exact es
+  · apply sum_ok_intro
+    rw [List.foldl_cons, List.foldl_cons, List.foldl_cons, List.foldl_cons, List.foldl_nil]
+    omega
+
+/-! ### encoding: shift + mask is the limb split -/
+
+theorem mask32 (v : Nat) : v &&& 4294967295 = v % 2 ^ 32 := by
+  have : (4294967295 : Nat) = 2 ^ 32 - 1 := by decide
+  rw [this]; exact Nat.and_two_pow_sub_one_eq_mod v 32
+
+theorem div_div_64 (n : Nat) : n / 18446744073709551616 = n / 2 ^ 64 := by
+  have : (18446744073709551616 : Nat) = 2 ^ 64 := by decide
+  rw [this]
 
 end TF.GenBridge.CodecArith
